@@ -38,13 +38,36 @@ class P:
   def __init__(self, no, hw): self.port_no = no; self.hw_addr = hw; self.config = 0
 
 
+class TimerModel:
+  """recoco.Timer as seen by its user: fire() is one expiry of the timer; a self-stoppable timer whose callback returns the literal False stops"""
+  made = []
+  def __init__(self, timeToWake, callback, absoluteTime=False, recurring=False, args=(), kw={}, scheduler=None, started=True, selfStoppable=True):
+    self.cb = callback; self.args = args; self.kw = kw; self.recurring = recurring; self.self_stoppable = selfStoppable; self.alive = True
+    self.interval = timeToWake
+    TimerModel.made.append(self)
+  def cancel(self): self.alive = False
+  def fire(self):
+    if not self.alive: return False
+    rv = self.cb(*self.args, **self.kw)
+    if (self.self_stoppable and rv is False) or not self.recurring: self.alive = False
+    return True
+
+
+def expiry_timer(disc):
+  """the recurring timer Discovery created for its link-timeout check"""
+  for t in TimerModel.made:
+    if getattr(t.cb, '__self__', None) is disc and getattr(t.cb, '__name__', '') == '_expire_links': return t
+  return None
+
+
 def setup(ctx, dpids):
   core = env.get_core()
   of = ctx.pox('pox.openflow.libopenflow_01'); ofp = ctx.pox('pox.openflow'); D = ctx.pox('pox.openflow.discovery')
   recoco = ctx.pox('pox.lib.recoco.recoco')
   clock = env.Clock(1000)
   D.time = clock
-  D.Timer = lambda *a, **k: None
+  del TimerModel.made[:]
+  D.Timer = TimerModel
   nexus = ofp.OpenFlowNexus()
   core.components['openflow'] = nexus
   cons = {}
@@ -100,6 +123,9 @@ def h_adjacency(ctx, npre, op):
   for i in range(3):
     for j in range(i): ctx.assume(d[i] != d[j])
   core, of, ofp, D, nexus, disc, clock, events = setup(ctx, d)
+  tm = expiry_timer(disc)
+  ctx.check('Discovery runs its link-timeout check on a recurring timer', tm is not None and tm.recurring and tm.alive)
+  if tm is not None: tm.fire()         # a periodic check that finds nothing overdue (the usual case, here: before any link is known) ...
   ref = {}           # (src idx, dst idx) -> timestamp ; ports are fixed per pair: port = 10*src+dst
   def port(i, j): return 10 * (i + 1) + (j + 1)
   pairs = [(0, 1), (1, 0), (1, 2), (2, 1), (0, 2)]
@@ -115,13 +141,15 @@ def h_adjacency(ctx, npre, op):
     clock.now = clock.now + ctx.int('gap%d' % n, 0, 30)
   del events[:]
   timeout = disc._link_timeout
+  ctx.check('the periodic link-timeout check keeps running after a check that removed nothing', tm is not None and tm.alive)
   if op == 'probe':
     k = int(ctx.int('k', 0, len(pairs) - 1))
     new = do_probe(k)
     ctx.check('LinkEvent only for a new link', events == [(True, D.Link(d[pairs[k][0]], port(*pairs[k]), d[pairs[k][1]], port(pairs[k][1], pairs[k][0])))] if new else events == [])
   elif op == 'expire':
     clock.now = clock.now + ctx.int('later', 0, 40)
-    disc._expire_links()
+    fired = tm.fire() if tm is not None else False          # ... and the periodic check at the later instant, through the timer
+    ctx.check('the link-timeout check still runs', fired)
     gone = [key for key, ts in ref.items() if bool(ts + timeout < clock.now)]
     for key in gone: del ref[key]
     ctx.check('one remove event per expired link', len(events) == len(gone) and all(e[0] is False for e in events))
